@@ -421,6 +421,20 @@ func (hc *halfConn) Lock()   {}
 func (hc *halfConn) Unlock() {}
 ` + viewCiphers
 
+// finStubs / finWanted: the Finished verify_data (C04).  finishedHash is viewed without its `prf` field: the call
+// h.prf(…) is rewritten to prfForVersion(h.version, &cipherSuite{})(…), the view stub that checkViews verifies
+// against every return of the real prfAndHashForVersion; that newFinishedHash stores exactly that function is
+// checked against its text (checkedFuncs).  msgHash is the transcript hash: Sum(nil) is the digest function of
+// (algorithm, key = none, input) — the same parameter `ext.hmac` the keyed hashes use, at the empty key.
+var finWanted = []string{"pHash", "prf12", "finishedHash.Write", "finishedHash.Sum", "finishedHash.clientSum", "finishedHash.serverSum"}
+
+const finStubs = `
+type finishedHash struct {
+	msgHash hash.Hash
+	version uint16
+}
+` + viewPrf
+
 // negStubs / negWanted: parameter negotiation (C01): version and ALPN selection over a view of Config
 var negWanted = []string{"Config.supportedVersions", "Config.mutualVersion", "negotiateALPN", "checkALPN"}
 
@@ -466,7 +480,9 @@ func (t *RetransmitTimer) start() { t.starts++ }
 ` + viewCommon,
 }
 
-const viewCommon = `
+const viewCommon = viewPrf + viewCiphers
+
+const viewPrf = `
 type cipherSuite struct{ id uint16 }
 
 // every suite the stack negotiates derives keys with the TLS 1.2 PRF over HMAC-SM3; checkViews verifies
@@ -475,7 +491,7 @@ func prfForVersion(version uint16, suite *cipherSuite) func(result, secret, labe
 	return func(result, secret, label, seed []byte) { prf12(sm3.New)(result, secret, label, seed) }
 }
 
-` + viewCiphers
+`
 
 const viewCiphers = `
 type halfConn struct {
@@ -495,6 +511,7 @@ func (b goCBC) BlockSize() int { return b.blockSize }
 
 // viewStructs: stub structs standing for real ones, with the fields whose type is abstracted
 var viewStructs = map[string]map[string]bool{
+	"finishedHash":       {},
 	"ProtocolDetectConn": {"Conn": true},
 	"Conn":               {},
 	"Config":             {},
@@ -504,6 +521,11 @@ var viewStructs = map[string]map[string]bool{
 }
 
 // replacedFuncs: real functions a stub stands for, with the source text (whitespace-normalised) the stub models
+// checkedFuncs: real functions the views rely on without translating them, with the text they must have
+var checkedFuncs = map[string]string{
+	"newFinishedHash": `func newFinishedHash(version uint16, cipherSuite *cipherSuite) finishedHash { prf, newH := prfAndHashForVersion(version, cipherSuite) if newH != nil { return finishedHash{newH(), version, prf} } return finishedHash{sm3.New(), version, prf} }`,
+}
+
 var replacedFuncs = map[string]string{
 	"addBytesWithLength":         `func addBytesWithLength(b *cryptobyte.Builder, v []byte, n int) { b.AddValue(marshalingFunction(func(b *cryptobyte.Builder) error { if len(v) != n { return fmt.Errorf("invalid value length: expected %d, got %d", n, len(v)) } b.AddBytes(v) return nil })) }`,
 	"marshalingFunction.Marshal": `func (f marshalingFunction) Marshal(b *cryptobyte.Builder) error { return f(b) }`,
@@ -693,7 +715,7 @@ func synth(d *decls, pkgName string, fns []string) (*token.FileSet, *ast.File, *
 // rewriteDynCases re-parses one function and replaces the case types of its type switches by
 // the stub types that stand for them (dynCases)
 func rewriteDynCases(src string) string {
-	if !strings.Contains(src, ".(type)") && !strings.Contains(src, "io.ReadFull(") && !strings.Contains(src, "cryptobyte.") && !strings.Contains(src, ".EnableDebug") {
+	if !strings.Contains(src, ".(type)") && !strings.Contains(src, "io.ReadFull(") && !strings.Contains(src, "cryptobyte.") && !strings.Contains(src, ".EnableDebug") && !strings.Contains(src, ".prf(") {
 		return src
 	}
 	fset := token.NewFileSet()
@@ -851,6 +873,17 @@ func rewriteDynCases(src string) string {
 			rewriteList(fd.Body.List)
 		}
 	}
+	// X.prf(args)  ==>  prfForVersion(X.version, &cipherSuite{})(args)   (finishedHash: see finStubs)
+	ast.Inspect(f, func(n ast.Node) bool {
+		if c, ok := n.(*ast.CallExpr); ok {
+			if se, ok := c.Fun.(*ast.SelectorExpr); ok && se.Sel.Name == "prf" {
+				c.Fun = &ast.CallExpr{Fun: &ast.Ident{Name: "prfForVersion"}, Args: []ast.Expr{
+					&ast.SelectorExpr{X: se.X, Sel: &ast.Ident{Name: "version"}},
+					&ast.UnaryExpr{Op: token.AND, X: &ast.CompositeLit{Type: &ast.Ident{Name: "cipherSuite"}}}}}
+			}
+		}
+		return true
+	})
 	ast.Inspect(f, func(n ast.Node) bool {
 		// io.ReadFull(r, buf)  ==>  r.readFull(buf)   (the stub method that spells the library loop out)
 		if c, ok := n.(*ast.CallExpr); ok && len(c.Args) == 2 {
@@ -933,6 +966,19 @@ func checkViews(d *decls, pkgName string) error {
 		printer.Fprint(&b, d.fset, fd)
 		if got := strings.Join(strings.Fields(b.String()), " "); got != want {
 			return fmt.Errorf("stub %s: the real function changed (%q)", name, got)
+		}
+	}
+	if strings.Contains(curStubs, "type finishedHash struct") {
+		for name, want := range checkedFuncs {
+			fd := d.funcs[name]
+			if fd == nil {
+				return fmt.Errorf("view finishedHash: no function %s in the tree", name)
+			}
+			var b bytes.Buffer
+			printer.Fprint(&b, d.fset, fd)
+			if got := strings.Join(strings.Fields(b.String()), " "); got != want {
+				return fmt.Errorf("view finishedHash: %s changed (%q)", name, got)
+			}
 		}
 	}
 	for _, dc := range fS.Decls {
@@ -3113,6 +3159,12 @@ func assignsThroughRecv(fd *ast.FuncDecl) bool {
 			if id, ok := s.Fun.(*ast.Ident); ok && id.Name == "copy" && len(s.Args) == 2 && rooted(s.Args[0]) {
 				found = true
 			}
+			// x.h.Write(p) / x.h.Reset() on a modelled hash held in a field of the receiver re-binds that field
+			if f, ok := s.Fun.(*ast.SelectorExpr); ok && (f.Sel.Name == "Write" || f.Sel.Name == "Reset") {
+				if _, isId := f.X.(*ast.Ident); !isId && rooted(f.X) {
+					found = true
+				}
+			}
 		}
 		return true
 	})
@@ -3495,6 +3547,7 @@ func allGroups() []group {
 		gs = append(gs, group{pkg: name, sub: "rx", stubs: rxStubs, funcs: rxWanted[name]})
 		gs = append(gs, group{pkg: name, sub: "neg", stubs: negStubs, funcs: negWanted})
 		gs = append(gs, group{pkg: name, sub: "codec", stubs: cbStubs, funcs: codecWanted[name], nilIsEmpty: true})
+		gs = append(gs, group{pkg: name, sub: "fin", stubs: finStubs, funcs: finWanted})
 	}
 	return gs
 }
